@@ -489,9 +489,10 @@ class ActorScene:
 
     def channel(self, i):
         ag = self.agents[aid(i)]
-        if not self.actor._supported_agent(ag):
+        sp = getattr(ag, "action_space", None)
+        if sp is None or self.key not in sp.keys():        # the actor gave this agent no channel
             return None
-        return ag.action_space[self.key]
+        return sp[self.key]
 
     def snapshot(self):
         ags = []
